@@ -5,7 +5,9 @@ traces of the model; direct predicates on results and file bytes; stress under -
 Second use after an I/O error: appenders whose write(2) the OS refuses (they append to the 'full' device 1:7 - what /dev/full
 is - under a private name next to the record file, never to the path /dev/full itself: ENOSPC) run in the
 same server processes, at every position of the other appenders' interleavings; the calls on the healthy file must
-behave as if the failed calls had never happened (theorem C14_failed_elsewhere_leaves_nothing)."""
+behave as if the failed calls had never happened (theorem C14_failed_elsewhere_leaves_nothing).
+Big record files: the same forced interleavings and predicates on sparse files of 2 GiB .. 1 TiB (big_files below; theorems
+C14_offset_exact, C14_prefix_shift)."""
 import errno, itertools, os, subprocess, sys
 sys.path.insert(0, os.path.join(os.path.dirname(os.path.abspath(__file__)), "..", "lib"))
 import vf
@@ -422,11 +424,13 @@ def main():
             c.violation("append-race-stress", "stress under -race failed: %s" % out[-600:], {"cmd": "cd go/impl && go run -race ./cmd/c14stress", "got": out[-2000:]})
     c.finish(rule="every interleaving of 2 appenders (4 segments each) in-process and cross-process; PRNG(seed)-sampled interleavings of 3 and 4 appenders over 1..3 processes; "
                   "a call whose write the OS refuses (/dev/full) at every position of one appender's call (enumerated) and at PRNG(seed)-sampled positions of 2 appenders' interleavings, several such calls; "
+                  "the same forced interleavings on sparse record files: every interleaving of 2 appenders (in-process, cross-process) at exactly 2 GiB and 4 GiB; PRNG(seed)-sampled interleavings of 1..3 appenders for 6 record sizes x {2^31, 2^32, 2^33, 2^40} x {the append that crosses the boundary, the first one after it, later ones}; "
                   "a case is non-trivial/distinct by its (process assignment, observed event trace)",
              extra={"race_stress": race_note, "big_files": big_note},
              assumptions=["atomicity/exclusivity of flock(2), atomicity of one write(2) under it, lockFDMap accesses atomic under its mutex (race detector in the thorough tier), Go memory model",
                           "a thread is known to hold its process' table entry from the flock.tabled schedule point; which queued thread obtains a freed flock is observed, not predicted",
                           "second use after an I/O error: the refused write is provoked with the 'full' device 1:7 under a private name (own mknod node, else a symlink to /dev/full; ENOSPC on the first byte; the call names that path, so it fails on ANOTHER file than the one observed) and, on the record file itself, with a payload encoding/binary refuses; a write that the OS cuts short in the middle of a record (EFBIG/EDQUOT after some bytes) on the record file itself is not provoked. In the model such a call is one step that changes nothing (cfg.away): that AppendRecord keeps no state between calls besides lockFDMap and the files is what the forced executions test, it is not derived from the Go source",
+                          "big record files: C14_offset_exact and C14_prefix_shift are theorems about the model's arithmetic (64-bit quotient and product, wrap after every operation) and about the step relation; that the compiled AppendRecord computes slot, offset and index in those widths is validated, not derived from the source: sparse files (first and last record stored, a hole between) of lengths just below, at and above 2^31, 2^32, 2^33 and 2^40 bytes, 6 record sizes, on this 64-bit platform (int is 64 bits; a 32-bit build has a 32-bit SortIdxInStore and is outside the theorem's widths); lengths the scratch file system cannot hold (above 16 TiB on ext4) are covered by the theorem only. The file is read back through lseek(SEEK_DATA/SEEK_HOLE): bytes the file system reports as a hole are taken to be zero. A trace observed on a big file is replayed through the model on the window that starts at the last initial record, with the indices shifted (C14_prefix_shift)",
                           "per-P caches (sync.Pool and the like) are made deterministic by running the worker processes of these cases with GOMAXPROCS=1 (one half of the enumerated cases also with the default); with several Ps whether a later call meets what a failed call left behind depends on the Go scheduler"])
 
 
